@@ -146,6 +146,45 @@ theorem C04_groupby_map_like_do (script : Aid → List Action) (arg : Nat) (ret 
       simp
   simpa using this (w, [])
 
+private theorem groupMap_results (script : Aid → List Action) (arg : Nat) (ret : Aid → Nat → Nat) (gs : List (Nat × List Aid))
+    (w : World) (acc : List (Nat × List Nat)) (hg : ∀ g ∈ gs, ∀ a ∈ g.2, a < w.info.length) :
+    ((gs.foldl (fun (acc : World × List (Nat × List Nat)) g =>
+        let (w', rs) := walkMap script arg ret acc.1 (g.2.filter (alive acc.1))
+        (w', acc.2 ++ [(g.1, rs)])) (w, acc)).2.map (·.2)).flatten
+      = (acc.map (·.2)).flatten ++ (visited script arg w (gs.map (·.2)).flatten).map (fun a => ret a arg) := by
+  induction gs generalizing w acc with
+  | nil => simp [visited]
+  | cons g gs ih =>
+    simp only [List.foldl_cons, List.map_cons, List.flatten_cons]
+    have hspec := walkMap_spec script arg ret w (g.2.filter (alive w))
+    have hfa := walk_filter_alive script arg w w (Le.refl w) g.2 (hg g List.mem_cons_self)
+    have hstep : (walkMap script arg ret w (g.2.filter (alive w))) =
+        (walk script arg w g.2, (visited script arg w g.2).map (fun a => ret a arg)) := by
+      apply Prod.ext
+      · rw [hspec.1, hfa.1]
+      · rw [hspec.2, hfa.2]
+    rw [hstep]
+    simp only
+    rw [ih (walk script arg w g.2) (acc ++ [(g.1, (visited script arg w g.2).map (fun a => ret a arg))])
+      (fun g' hg' a ha => Nat.lt_of_lt_of_le (hg g' (List.mem_cons_of_mem _ hg') a ha) (le_walk script arg w g.2).len)]
+    rw [visited_append]
+    simp [List.map_append, List.flatten_append]
+
+/-- `GroupBy.map` returns the results of exactly the agents it invoked, in invocation order: the result lists of the dict
+    (whose keys are the group keys in group order, `C04_groupby_map_like_do`), read one after the other, are the results of
+    the agents invoked by the regrouped walk (review L17: not only the keys). -/
+theorem C04_groupby_map_results_aligned (script : Aid → List Action) (arg : Nat) (ret : Aid → Nat → Nat) (key : Aid → Nat)
+    (w : World) (t : Target) :
+    ((groupMap script arg ret key w t).2.map (·.2)).flatten
+      = (visited script arg w ((groupBy key (members w t)).map (·.2)).flatten).map (fun a => ret a arg) := by
+  unfold groupMap
+  have := groupMap_results script arg ret (groupBy key (members w t)) w [] (by
+    intro g hg a ha
+    apply members_lt w t
+    apply (groupBy_flatten_perm key (members w t)).subset
+    exact List.mem_flatten.mpr ⟨g.2, List.mem_map.mpr ⟨g, hg, rfl⟩, ha⟩)
+  simpa using this
+
 /-- The duplicate-freeness assumed above holds at every reachable state (C02): after **any** history —
     including earlier activations with churn and in-place shuffles — one activation of any set invokes
     nobody twice, and every member that survives the call is invoked exactly once. -/
@@ -321,6 +360,8 @@ example : walkX (fun a => if a = 1 then [.rm 2] else []) demoRaises 7 demoWorld 
 example : (doSetX (fun a => if a = 1 then [.rm 2] else []) demoRaises 7 demoWorld (.all 0)).1.log = [(0, 7), (1, 7)] ∧
     members (doSetX (fun a => if a = 1 then [.rm 2] else []) demoRaises 7 demoWorld (.all 0)).1 (.all 0) = [0, 1, 3, 4] := by
   decide
+example : ((groupMap demoScript 7 (fun a x => a * 100 + x) (GroupKey.ty.eval demoWorld) demoWorld (.all 0)).2) =
+    [(0, [7, 407]), (1, [107]), (2, [307])] := by decide
 example : (mapSetX demoScript demoRaises 7 (fun a x => a * 100 + x) demoWorld (.all 0)).2 = none ∧
     (mapSetX demoScript (fun _ => false) 7 (fun a x => a * 100 + x) demoWorld (.all 0)).2 = some [7, 107, 307, 407] := by
   decide
